@@ -281,10 +281,12 @@ class CodecInterp(Interp):
         return Interp.comprehension(self, e, frame, ctor)
 
     def on_call(self, text, callee, args, kwargs, node, frame):
-        if text in ('state.minmax', 'CoderState.minmax', 'self.minmax'):
+        from sa.patheval import FuncRef as _FR
+        if text.split('.')[-1] == 'minmax' or (isinstance(callee, _FR) and callee.fi.name == 'minmax'):
+            # (the minimum / maximum of the present values of the column, wherever the helper lives)
             self.event('minmax', args[0] if args else None)
             return (Sym('MIN'), Sym('MAX'))
-        if text == 'nbits_for_uint':
+        if text.split('.')[-1] == 'nbits_for_uint' or (isinstance(callee, _FR) and callee.fi.name == 'nbits_for_uint'):
             return Sym('NBD', _s(args[0]))
         if text.startswith('log.'):
             return None
